@@ -145,8 +145,17 @@ def _execute(case, edit):
     # ------------------------------------------------------------------ regex
     if fam == "regex":
         pattern, flags, repl, count = case["pattern"], case["flags"], case["repl"], case["count"]
+        # the string vector as the library's own StringDType, as NumPy's StringDType() instance, or as an old-style fixed-width array
+        skind = ["str", "str", "tstr", "ustr"][len(repr(case.get("pattern"))) % 4] if form != "scalar" else "str"
+        if skind == "ustr" and edit is not None:
+            skind = "tstr"        # (an in-place assignment into a fixed-width array would truncate the new value: not the library's doing)
+        if skind == "ustr":
+            strip = lambda v: None if v is None else (v.rstrip("\x00") or "x")      # fixed-width strings cannot hold trailing NULs
+            vals = [strip(v) for v in vals]
+            if edit is not None: old_vals = [strip(v) for v in old_vals]; newv = strip(newv)
+        res.cls(f"string-dtype:{skind}")
         if edit is None and form == "proxy" and case.get("derived"):
-            parent = di.Vector(gen.np_column("str", list(vals) + ["zzz", "a1"]))
+            parent = di.Vector(gen.np_column(skind, list(vals) + ["zzz", "a1"]))
             try:
                 parent.re.findall("a"); parent.str.upper(); parent.re.sub("z", "y")
             except Exception:
@@ -154,9 +163,9 @@ def _execute(case, edit):
             vec = parent[:n].copy() if case["derived"] == "copy" else parent[:n]
             res.cls("proxy-on-derived-vector")
         elif edit is None:
-            vec = di.Vector(gen.np_column("str", vals))
+            vec = di.Vector(gen.np_column(skind, vals))
         else:
-            vec = di.Vector(gen.np_column("str", old_vals))
+            vec = di.Vector(gen.np_column(skind, old_vals))
             try:
                 vec.re.findall("a"); di.regex.sub("a", "b", vec); di.regex.search("a", vec)
             except Exception:
@@ -285,6 +294,9 @@ def _execute(case, edit):
                 back = [None if v is None else di.dt.from_string(str(np.asarray(s)[i]), fmt) for i, v in enumerate(vals)]
                 got = [canon.NA if b is None else canon.canon_obj(b) for b in back]
             else:
+                if n and len(fmt) % 2 == 0 and form != "proxy":
+                    s = di.Vector(np.asarray(s).astype(str))       # the same strings as an old-style fixed-width array
+                    res.cls("from_string:fixed-width-input")
                 back = s.dt.from_string(fmt) if form == "proxy" else di.dt.from_string(s, fmt)
                 got = canon.col_cells(back)
             if len(got) != n or not canon.cells_eq(got, pre):
